@@ -85,6 +85,19 @@ def builders(model):
                 constant=S('c')), gen)
         B['ZeroFunctional[%s]' % t] = (
             lambda I, w=w: inst(I, 'ZeroFunctional', X(w)), gen)
+        B['ConstantFunctional[c, %s]' % t] = (
+            lambda I, w=w: inst(I, 'ConstantFunctional', X(w), S('b0')), gen)
+        B['expr:a * ConstantFunctional[c, %s]' % t] = (
+            lambda I, w=w: I.binop(ast.Mult, S('q'), inst(
+                I, 'ConstantFunctional', X(w), S('b0'))), gen)
+        B['expr:a * ConstantFunctional[-c, %s]' % t] = (
+            lambda I, w=w: I.binop(ast.Mult, S('q'), inst(
+                I, 'ConstantFunctional', X(w), -S('b1'))), gen)
+        B['expr:a * L1Norm[%s]' % t] = (
+            lambda I, w=w: I.binop(ast.Mult, S('q'), inst(
+                I, 'L1Norm', X(w))),
+            [2 * sig * S('q'), -3 * sig * S('q'), sig * S('q') / 2,
+             -sig * S('q') / 3])
         # derived functionals
         B['expr:a * L2NormSquared[%s]' % t] = (
             lambda I, w=w: I.binop(ast.Mult, S('q'), inst(
